@@ -37,7 +37,7 @@ type Case struct {
 	SignTime  int64      `json:"signTime"`
 	TSAStore  bool       `json:"tsaStore"`
 	Option    string     `json:"option"` // "", always, afterCertExpiry
-	Token     string     `json:"token"`  // absent garbage valid wrong-imprint untrusted-tsa no-eku codesigning-eku noncritical-eku
+	Token     string     `json:"token"`  // absent garbage valid wrong-imprint untrusted-tsa no-eku codesigning-eku noncritical-eku ca-as-tsa keyenc-only
 	GenTime   int64      `json:"genTime"`
 	Accuracy  int64      `json:"accuracy"`
 	TSARev    string     `json:"tsaRev"` // ok revoked unknown error
@@ -45,13 +45,16 @@ type Case struct {
 	EdgeLabel string     `json:"edge"`
 	Warm      string     `json:"warm,omitempty"` // earlier verification on the same verifier: "", plain, token, expired
 	StoreOrd  int        `json:"storeOrder"`     // position / repetition of the tsa store in the statement's store list
+	// RevAction: action of the (code-signing) revocation validation in the level; it has no say
+	// in whether the TSA must be unrevoked. "" = log
+	RevAction string `json:"revAction,omitempty"`
 }
 
 var (
 	once                                 sync.Once
 	tsaRoot, otherTSARoot                *pki.Cert
 	tsaGood, tsaNoEKU, tsaCS, tsaNonCrit *pki.TSA
-	tsaUntrusted                         *pki.TSA
+	tsaUntrusted, tsaIsCA, tsaKeyEnc     *pki.TSA
 )
 
 func setup() {
@@ -69,6 +72,10 @@ func setup() {
 		tsaNoEKU = mk("c06 tsa without eku", tsaRoot, pki.Spec{})
 		tsaCS = mk("c06 tsa codesigning", tsaRoot, pki.Spec{EKU: []x509.ExtKeyUsage{x509.ExtKeyUsageCodeSigning}})
 		tsaNonCrit = mk("c06 tsa noncritical eku", tsaRoot, pki.Spec{EKU: []x509.ExtKeyUsage{x509.ExtKeyUsageTimeStamping}})
+		// right extended key usage, wrong certificate: a CA certificate (key usage certSign only) and
+		// an end-entity certificate whose key usage is keyEncipherment only
+		tsaIsCA = mk("c06 tsa that is a ca", tsaRoot, pki.Spec{CritTSEKU: true, IsCA: true, PathLen: -1})
+		tsaKeyEnc = mk("c06 tsa keyencipherment", tsaRoot, pki.Spec{CritTSEKU: true, KeyUsage: x509.KeyUsageKeyEncipherment})
 	})
 }
 
@@ -111,7 +118,7 @@ func model(c Case) verdicts {
 		return v
 	}
 	switch c.Token {
-	case "absent", "garbage", "wrong-imprint", "untrusted-tsa", "no-eku", "codesigning-eku":
+	case "absent", "garbage", "wrong-imprint", "untrusted-tsa", "no-eku", "codesigning-eku", "ca-as-tsa", "keyenc-only":
 		v.tsFail = true
 		return v
 	case "noncritical-eku":
@@ -175,6 +182,10 @@ func check(c Case) (string, string, verdicts) {
 		issuer = tsaCS
 	case "noncritical-eku":
 		issuer = tsaNonCrit
+	case "ca-as-tsa":
+		issuer = tsaIsCA
+	case "keyenc-only":
+		issuer = tsaKeyEnc
 	}
 	if issuer != nil {
 		spec.Timestamp = func(sig []byte) []byte {
@@ -214,7 +225,11 @@ func check(c Case) (string, string, verdicts) {
 		tsRev.Err = errors.New("scripted timestamping validator error")
 		tsRev.ErrWithResults = c.Accuracy%2 == 1
 	}
-	level := kit.LevelFor("strict", map[string]string{"authenticity": "enforce", "expiry": "log", "authenticTimestamp": c.TSAction, "revocation": "log"}, false)
+	revAction := c.RevAction
+	if revAction == "" {
+		revAction = "log"
+	}
+	level := kit.LevelFor("strict", map[string]string{"authenticity": "enforce", "expiry": "log", "authenticTimestamp": c.TSAction, "revocation": revAction}, false)
 	opts := kit.Options()
 	opts.RevocationTimestampingValidator = tsRev
 	opts.OCITrustPolicy = kit.OCIDoc("p", level.SV(c.Option), stores, []string{"*"})
@@ -321,6 +336,12 @@ func classes(c Case, v verdicts) []string {
 	if c.Warm != "" {
 		cl = append(cl, "reused-verifier")
 	}
+	if c.RevAction != "" {
+		cl = append(cl, "revocation-action="+c.RevAction)
+		if v.applies && c.Token == "valid" && c.TSARev == "revoked" {
+			cl = append(cl, "revoked-tsa-under-revocation-"+c.RevAction)
+		}
+	}
 	return cl
 }
 
@@ -382,7 +403,7 @@ func drawCase(rt *rapid.T) Case {
 		c.TSAStore = rapid.IntRange(0, 3).Draw(rt, "tsaStore") != 0
 		if c.TSAStore {
 			c.Option = rp.Pick(rt, "option", "", "always", "afterCertExpiry", "afterCertExpiry")
-			c.Token = rp.Pick(rt, "token", "valid", "valid", "valid", "valid", "valid", "absent", "garbage", "wrong-imprint", "untrusted-tsa", "no-eku", "codesigning-eku", "noncritical-eku")
+			c.Token = rp.Pick(rt, "token", "valid", "valid", "valid", "valid", "valid", "absent", "garbage", "wrong-imprint", "untrusted-tsa", "no-eku", "codesigning-eku", "noncritical-eku", "ca-as-tsa", "keyenc-only")
 			c.Accuracy = rp.Pick(rt, "accuracy", 0, 1, 1, 60, 2*hour)
 			switch edge { // place the token range, not only its centre, at the edge
 			case "nb", "nb+1", "nb-1":
@@ -411,6 +432,7 @@ func drawCase(rt *rapid.T) Case {
 	}
 	c.Warm = rp.Pick(rt, "warm", "", "", "", "plain", "token", "expired")
 	c.StoreOrd = rapid.IntRange(0, 3).Draw(rt, "storeOrder")
+	c.RevAction = rp.Pick(rt, "revAction", "", "", "skip", "skip", "enforce")
 	return c
 }
 
